@@ -21,10 +21,11 @@ Threads are unbounded (`Tid = Nat`, a thread is its call stack); the decode func
 arbitrary: the *label* of a transition says what it does next (start any nested call with any
 cursor path, return any value, fail, panic).  Theorems quantify over all label sequences.
 
-Values are `Nat` (the identity of a Go value; `0` is the nil value), types are `Nat`
-(`cfg.iface tp` says whether the Go type is an interface type: only then is a nil value stored
-as an untyped nil `any`, on which the unchecked assertions `v.(T)` of `DecodeExclusive` and
-`StoreOrLoadPair` panic).
+Values are `Nat` (the identity of a Go value; `0` is the nil value), types are `Nat`.  Since
+commit e69b1c0 every conversion of a cached or handed-over `any` back to `T` uses the comma-ok
+form (`r, _ := v.(T)`), so a nil result of an interface type (stored as an untyped nil `any`)
+comes back as the zero value on every path; the model therefore needs no notion of interface
+types, and the only way a goroutine dies is a panicking decode function.
 -/
 namespace PdfVerif.CONC
 
@@ -62,11 +63,10 @@ inductive Res where
   | panic
   deriving DecidableEq, Repr
 
-/-- static configuration: the file, which types are interface types, and which version of
-`cacheStoreOrLoad` is modelled (`fixed = false`: the code before commit 231d3ca). -/
+/-- static configuration: the file, and which version of `cacheStoreOrLoad` is modelled
+(`fixed = false`: the code before commit 231d3ca). -/
 structure Cfg where
   get : Ref → GetRes
-  iface : Ty → Bool
   fixed : Bool
 
 def nilVal : Val := 0
@@ -190,9 +190,6 @@ def storeOrLoad (fixed : Bool) (c : Key → Option Val) (tp : Ty) (refs : List R
       | some w => (c, w)
       | none => (storeAll c tp v refs, v)
 
-/-- does the unchecked assertion `v.(T)` panic? (nil value of an interface type) -/
-def assertPanics (cfg : Cfg) (tp : Ty) (v : Val) : Bool := cfg.iface tp && v == nilVal
-
 /-! ## transitions -/
 
 /-- the object a Decode activation was called with, for the event record -/
@@ -246,16 +243,14 @@ def decLoop (s : State) (t : Tid) (rest : List Frame) (tp : Ty) (refs path : Lis
       else { s with thr := upd s.thr t (.decGet tp (refs ++ [r]) (r :: path) r :: rest) }
 
 /-- first critical section of `DecodeExclusive` -/
-def exclCall (cfg : Cfg) (s : State) (t : Tid) (stk : List Frame) (o : Obj) (tp : Ty)
+def exclCall (_cfg : Cfg) (s : State) (t : Tid) (stk : List Frame) (o : Obj) (tp : Ty)
     (path : List Ref) : State :=
   match o with
   | .direct =>
     { s with thr := upd s.thr t (.exFn tp path :: stk), hist := .run t tp [] path none :: s.hist }
   | .ref r =>
     match s.cache (r, tp) with
-    | some v =>
-      if assertPanics cfg tp v then crash s t (.exc t o tp .panic none)
-      else retExc s t stk o tp (.ok v) none
+    | some v => retExc s t stk o tp (.ok v) none          -- r, _ := v.(T)
     | none =>
       match s.wip (r, tp) with
       | some p => { s with thr := upd s.thr t (.exWait (r, tp) p :: stk) }
@@ -264,26 +259,19 @@ def exclCall (cfg : Cfg) (s : State) (t : Tid) (stk : List Frame) (o : Obj) (tp 
                  wip := upd s.wip (r, tp) (some s.npend),
                  thr := upd s.thr t (.exStart (r, tp) s.npend path :: stk) }
 
-/-- `StoreOrLoadPair`: one critical section; the first half may already be stored when the
-assertion on the second half panics -/
-def pairCall (cfg : Cfg) (s : State) (t : Tid) (r : Ref) (A B : Ty) (a b : Val) : State :=
+/-- `StoreOrLoadPair`: one critical section (`a, _ = v.(A)`, `b, _ = v.(B)`: no panic) -/
+def pairCall (_cfg : Cfg) (s : State) (t : Tid) (r : Ref) (A B : Ty) (a b : Val) : State :=
   match s.cache (r, A) with
   | some va =>
-    if assertPanics cfg A va then crash s t (.pair t r A B a b none)
-    else
-      match s.cache (r, B) with
-      | some vb =>
-        if assertPanics cfg B vb then crash s t (.pair t r A B a b none)
-        else { s with hist := .pair t r A B a b (some (va, vb)) :: s.hist }
-      | none =>
-        { s with cache := upd s.cache (r, B) (some b),
-                 hist := .pair t r A B a b (some (va, b)) :: s.hist }
+    match s.cache (r, B) with
+    | some vb => { s with hist := .pair t r A B a b (some (va, vb)) :: s.hist }
+    | none =>
+      { s with cache := upd s.cache (r, B) (some b),
+               hist := .pair t r A B a b (some (va, b)) :: s.hist }
   | none =>
     let c1 := upd s.cache (r, A) (some a)
     match c1 (r, B) with
-    | some vb =>
-      if assertPanics cfg B vb then crash { s with cache := c1 } t (.pair t r A B a b none)
-      else { s with cache := c1, hist := .pair t r A B a b (some (a, vb)) :: s.hist }
+    | some vb => { s with cache := c1, hist := .pair t r A B a b (some (a, vb)) :: s.hist }
     | none =>
       { s with cache := upd c1 (r, B) (some b),
                hist := .pair t r A B a b (some (a, b)) :: s.hist }
@@ -354,17 +342,15 @@ def step (cfg : Cfg) (s : State) (t : Tid) (a : Act) : Option State :=
       -- return res, err
       some (retExc s t rest (.ref k.1) k.2 res (some p))
     | .exWait k p :: rest =>
-      -- <-p.done; if p.err != nil {…}; return p.val.(T), nil
+      -- <-p.done; if p.err != nil {…}; r, _ := p.val.(T); return r, nil
       if (s.pend p).done then
         match (s.pend p).out with
-        | some (.ok v) =>
-          if assertPanics cfg k.2 v then some (crash s t (.exc t (.ref k.1) k.2 .panic (some p)))
-          else some (retExc s t rest (.ref k.1) k.2 (.ok v) (some p))
+        | some (.ok v) => some (retExc s t rest (.ref k.1) k.2 (.ok v) (some p))
         | some (.err e) => some (retExc s t rest (.ref k.1) k.2 (.err e) (some p))
         | some .panic => none
         | none =>
-          -- done closed before val/err were written: p.val is a nil `any`, the assertion panics
-          some (crash s t (.exc t (.ref k.1) k.2 .panic (some p)))
+          -- done closed before val/err were written: p.val is a nil `any`, the zero value comes back
+          some (retExc s t rest (.ref k.1) k.2 (.ok nilVal) (some p))
       else none
     | _ => none
 
